@@ -3,8 +3,8 @@
  *   strlen / strcpy / strncmp -> ghost-length string models (strings of up to PATH_MAX characters)
  *   ut_malloc / ut_free (xcmc.c only) -> counting wrappers around env/base.h's (session objects, C08)
  * env/fd.h is reused for the descriptor table and connect/setsockopt/send/close; its socket() (C05 obligation SOCK_NONBLOCK: not
- * applicable to the blocking client library) and recv() (no record of the message fields) are renamed away and supplied
- * by env/utilctl_env.h on top of fd.h's own helpers. */
+ * applicable to the blocking client library) and send()/recv() (symbolic-offset accesses into 38 KB stack structs; no record of
+ * the message fields) are renamed away and supplied by env/utilctl_env.h on top of fd.h's own helpers and ghost record. */
 #define XVU_XCMC 1
 #define XVU_XCMC_FD 1
 #include "prelude.h"
@@ -48,9 +48,11 @@ char *xvu_strcpy64(char *dst, const char *src);
 #include "env/base.h"
 #define socket xv_fdh_socket
 #define recv xv_fdh_recv
+#define send xv_fdh_send
 #include "env/fd.h"
 #undef socket
 #undef recv
+#undef send
 #include "env/utilctl_env.h"
 #include "contracts/utilctl.h"
 
@@ -65,7 +67,7 @@ static inline void xvu_ghost_havoc(void)
     struct xvu_cb_s c; xvu_cb = c;
     struct xvu_dp_s dp; xvu_dp = dp;
     struct xvu_lcb_s l; xvu_lcb = l;
-    xvu_sess_heap = nondet_long();
+    xvu_sess_heap = nondet_long(); xvu_tx_tracked = nondet_bool();
     xvu_env = (char *)nondet_cptr(); xvu_env_len = nondet_size_t(); xvu_env_set = nondet_bool();
     xvu_g_len = nondet_size_t(); xvu_g_off = nondet_long(); xvu_g_int = nondet_int();
     xvu_str[0].base = nondet_cptr(); xvu_str[0].len = nondet_size_t();
